@@ -169,10 +169,14 @@ def run(case):
     viol, n, transitions, outcomes = [], 0, 0, set()
     max_ratio, max_steps = 0.0, 0
 
+    n_exh = [0]  # a case that has already exhausted its budget a few times fails the check: the rest of it is skipped (each exhaustion burns a whole budget)
+
     def note(v, steps, size, outcome, subcase):
         nonlocal max_ratio, max_steps, transitions
         transitions += 1
         outcomes.add(outcome)
+        if outcome == "exhausted":
+            n_exh[0] += 1
         max_steps = max(max_steps, steps)
         max_ratio = max(max_ratio, steps / float(size + 1))
         if v is not None and not any(x["sig"] == v["sig"] for x in viol):
@@ -181,6 +185,8 @@ def run(case):
 
     if case["kind"] in ("doc_block", "doc_string", "unit_block"):
         for s in _doc_strings(case):
+            if n_exh[0] >= 4:
+                break
             n += 1
             sub = dict(kind="doc_string", string=s)
             for edd in (True, False):
@@ -195,6 +201,8 @@ def run(case):
             note(v, steps, len(s), o, sub)
     elif case["kind"] == "emit":
         for (kind, p), style, indent in itertools.product(A.sigma_int()[:6], ("rest", "google", "numpydoc"), (0, 1, 2)):
+            if n_exh[0] >= 4:
+                break
             n += 1
             p = dict(p)
             p["doc"] = case["pdoc"]
@@ -216,6 +224,8 @@ def run(case):
             pre = "".join(PROSE[i] for i in case["prefix"])
             strings = [pre + "".join(t) for k in range(0, case["maxlen"] - len(case["prefix"]) + 1) for t in itertools.product(PROSE, repeat=k)]
         for s in strings:
+            if n_exh[0] >= 4:
+                break
             n += 1
             sub = dict(kind="prose_string", string=s)
             size = len(s) + 60
